@@ -1,6 +1,6 @@
 # -*- coding: utf-8 -*-
 """C10 Positions never go negative: closable quantity, T+1 and close-today rules."""
-from checks import acct_prop
+from checks import acct_prop, acct, ordering
 
 
 def gen(rng, tier):
@@ -13,8 +13,10 @@ def gen(rng, tier):
 
 
 globals().update(acct_prop.make(
-    'C10', components=['views.closable', 'trade.'], clauses=['C10.'], gen=gen, coq=['Proofs/ClosableFacts.v', 'Gen/PosArith.v'], gen_mods=['PosArith'],
+    'C10', components=['views.closable', 'trade.', 'validate.verdict'], clauses=['C10.'], gen=gen,
+    analyser=acct_prop.combine(acct.analyse, ordering.analyse), prelude=acct_prop.COMBINED_PRELUDE,
+    coq=['Model/Sizing.v', 'Model/Validators.v', 'Proofs/ValidatorsFacts.v', 'Gen/ValidatorChain.v', 'Proofs/ClosableFacts.v', 'Gen/PosArith.v'], gen_mods=['PosArith', 'ValidatorChain'],
     rule=('random scenarios dense in closing orders: resting limit closes, second closes while the first rests, sells on the purchase day, '
           'close-today and split futures closes in both directions, splits between buy and sell, T+1 on and off; a case is one recorded '
-          'closable / today-closable view or trade step replayed through the Coq model; distinct non-trivial = distinct classes'),
+          'closable / today-closable view, trade step or verdict of the validator chain (closable / today-closable check) replayed through the Coq model; distinct non-trivial = distinct classes'),
     assumptions=['float64 rounding not modelled']))
